@@ -10,6 +10,7 @@ From Coq Require Import ZArith QArith List Bool.
 Import ListNotations.
 From GV Require Import Common.Wire.
 From GV Require gen.Gen_datamut.
+From GV Require C14.ParseModel.
 Open Scope Z_scope.
 
 Definition cid := Z.
@@ -502,5 +503,8 @@ Definition run_case (t : tree) : tree :=
   | T 2 [sh; T _ cs; T _ ops] =>
     let d := mkds (to_zs sh) (map (fun k => (tag (kid 0 k), dec_comp (kid 1 k))) cs) in
     T 0 (run_ops true ops d)
+  (* the tag grammar of parsed commands (ParseModel.v, coq/gen/Gen_parse.v) *)
+  | T 3 [s] => ParseModel.parse_tokens_case s
+  | T 4 [s; refs] => ParseModel.parse_validate_case s refs
   | _ => err (-2)
   end.
